@@ -40,7 +40,8 @@ class Gen:
                 on=("eq", "eq+", "any"), mod="any", subq=("in", "exists", "scalar"), like=True, case=True,
                 distinct=True, having=True, neg=True, strcat=True, group_expr=True, agg_str=True,
                 order=True, limit=True, sel_bool=True, countd=True, nested_bool=True,
-                touch_all=False, const_pred=True, order_const=True, agg_const=True, distinct_order=True)
+                touch_all=False, const_pred=True, order_const=True, agg_const=True, distinct_order=True,
+                not_in_sub=True)
 
     def __init__(self, rnd, tables=None, subq=True, joins=True, ints=INTS, strs=STRS, maxrows=4, feat=None):
         self.r = rnd
@@ -167,7 +168,7 @@ class Gen:
         if k < 0.45:
             sub = dict(sel=[(("col", al, r.choice([c for c in sscope if c[2] == INT])[1], INT), "s1")],
                        frm=("t", t, al), where=where, grp=[], hav=None, agg=False, dist=False, ord=[], lim=-1, off=0)
-            return ("insub", self.int_expr(scope, outer, 0), sub, r.random() < 0.4, BOOL)
+            return ("insub", self.int_expr(scope, outer, 0), sub, r.random() < 0.4 and self.f["not_in_sub"], BOOL)
         if k < 0.8:
             sub = dict(sel=[(("ci", 1), "s1")], frm=("t", t, al), where=where, grp=[], hav=None, agg=False,
                        dist=False, ord=[], lim=-1, off=0)
